@@ -147,6 +147,11 @@ def gen_cases(unit, ctx):
                         yield from _emit(_mk([n1, n2]), [], "abs" if k % 2 else "rel", (False,))
     elif kind == "events":
         t1 = unit[1]
+        # notes that all sit on the second channel beside signature / controller events on channel 0, re-assigned to the
+        # channel the notes already have, to the events' channel and to a third one
+        for e1 in (["ts", t1, 3, 4], ["ks", t1, "G"], ["cc", t1, 64, 100]):
+            for build in ("abs", "rel"):
+                yield from _emit(_mk([(1, 6, p, c1), (3, 2, p + 1, c1)]), [e1], build, (False,), [["chan", c1], ["chan", 0], ["chan", 7]])
         for ns in ([], [(1, 6, p, c0)], [(0, 3, p, c0), (2, 5, p, c1)]):
             for e1 in (["ts", t1, 3, 4], ["ks", t1, "G"], ["cc", t1, 64, 100], ["pc", t1, 5]):
                 yield from _emit(_mk(ns), [e1], "rel")
